@@ -154,9 +154,10 @@ impl<'tcx> Cx<'tcx> {
                         }
                     }
                 }
-                // promoted enum constants (`&Some(true)`, `&None`): evaluated and pretty printed, e.g. "&Option::<bool>::Some(true)"
+                // promoted enum constants (`&Some(true)`, `&None`) and promoted arrays of string literals (`&["a", "b"]`): evaluated and
+                // pretty printed, e.g. "&Option::<bool>::Some(true)", "[\"a\", \"b\"]"
                 let mut pretty = String::from("null");
-                if val == "null" && ty.peel_refs().is_enum() {
+                if val == "null" && (ty.peel_refs().is_enum() || matches!(ty.peel_refs().kind(), ty::Array(e, _) if e.peel_refs().is_str())) {
                     if let Const::Unevaluated(uv, _) = c.const_ {
                         if let Ok(cv) = self.tcx.const_eval_resolve(self.env, uv, rustc_span::DUMMY_SP) {
                             let mut shown = (cv, ty);
